@@ -10,6 +10,7 @@ import (
 	"strings"
 	"testing"
 	"testing/cryptotest"
+	"time"
 	"unicode/utf8"
 
 	"github.com/btcsuite/btcd/btcec/v2"
@@ -526,6 +527,23 @@ func (r *keyRun) storeLevel(t *testing.T) {
 			r.col.Inc("rejected_other-passphrase")
 		}
 		ks.Lock(acc.Address)
+		// the same while the account is already unlocked: an open session is no passphrase
+		if err := ks.Unlock(acc, p.Pass); err == nil {
+			for i, q := range ps {
+				if hmacEquivalent(q, p.Pass) {
+					continue
+				}
+				r.col.Tick()
+				r.col.Inc("attempts_other-passphrase")
+				if err := ks.Unlock(acc, q); err == nil {
+					r.add("other-passphrase-unlocks/while-already-unlocked", i, "Unlock with %q instead of %q succeeds while the account is unlocked", q, p.Pass)
+				}
+				if err := ks.TimedUnlock(acc, q, time.Minute); err == nil {
+					r.add("other-passphrase-unlocks/while-already-unlocked", i, "TimedUnlock with %q instead of %q succeeds while the account is unlocked", q, p.Pass)
+				}
+			}
+			ks.Lock(acc.Address)
+		}
 	}
 	// Export -> Import into a second store -> Update -> unlock
 	if want("export") {
